@@ -250,7 +250,9 @@ EXTRA = (" Since the seeded-change rounds (DESIGN.md section 10) the workload al
          "anchored functions (a named function never entered makes the run inconclusive) and, where the contract "
          "is self-contained, runs the repository's own tests under the contract; the workload is repeated under four "
          "interpreter environments (python -O, RuntimeWarning/UserWarning as errors, worker thread, stepping clock). "
-         "Validated against 161 independently written property-breaking changes (all reported) and 79 "
+         "Each run ends with long-memory histories (churn of 1e5 distinct requests then replay, one object / index "
+         "used 66000 times, exact 2^16-period histories). "
+         "Validated against 182 independently written property-breaking changes (all reported) and 98 "
          "property-preserving refactors (none reported by the checks they preserve).")
 
 
